@@ -1,6 +1,6 @@
 (* Property C11: frame-dropping rules remove only the frames they name.
    Statements only; proofs are in L_Prune.v.  M is ANY match predicate (regexp engine abstract). *)
-From PV Require Import M_Filter M_Prune S_Filter S_Prune L_FilterBase L_Prune.
+From PV Require Import M_Filter M_Prune S_Filter S_Prune S_PruneFull L_FilterBase L_Prune L_PruneFull.
 Open Scope Z_scope.
 Open Scope string_scope.
 
@@ -86,6 +86,22 @@ Theorem cut_root_is_drop_rule : forall (m : frame -> bool) (fs : list frame),
   drop_rule m fs (cut_root m false fs).
 Proof. intros m fs. exact (cut_root_drop_rule m fs). Qed.
 Print Assumptions cut_root_is_drop_rule.
+
+(* "fully matches": for ANY full-match predicate F, if the anchored expressions ^(e)$ the code compiles
+   behave as F on the profile's two expressions (re-checked against Go's regexp engine on every
+   correspondence case), RemoveUninteresting leaves exactly what the rule stated with F leaves: a frame
+   goes only if its WHOLE simplified name matches drop_frames, and keep_frames protects only names it
+   matches as a whole.  The statement does not mention how the anchoring is spelled. *)
+Theorem remove_uninteresting_full_match : forall M V F p,
+  (forall s, M (anchor (p_dropframes p)) s = F (p_dropframes p) s) ->
+  (forall s, M (anchor (p_keepframes p)) s = F (p_keepframes p) s) ->
+  p_dropframes p <> "" -> V (anchor (p_dropframes p)) = true ->
+  (p_keepframes p = "" \/ V (anchor (p_keepframes p)) = true) ->
+  wf_profile p = true -> in_F14 M p (anchor (p_dropframes p)) (ru_keep p) = false ->
+  exists p', remove_uninteresting M V p = Some p'
+             /\ fsamples p' = spec_remove_uninteresting F p (fsamples p).
+Proof. exact remove_uninteresting_full_match_l. Qed.
+Print Assumptions remove_uninteresting_full_match.
 
 (* histories: any sequence of Prune / PruneFrom / RemoveUninteresting applied to the SAME profile (the
    command-line path: fetchProfiles applies drop_frames, generateReport applies prune_from to the object
